@@ -6,6 +6,7 @@ map iteration or a new unguarded access in the Go code breaks a proof obligation
 -/
 import SMD.Generated.MapRanges
 import SMD.Generated.SyncFacts
+import SMD.Generated.PoolFacts
 namespace SMD.Facts
 
 /-- for every known `range` over a Go map: why its (random) order cannot reach a result -/
@@ -53,5 +54,20 @@ def admissible (a : String × String × String × String × String) : Bool :=
 def copyIntoCallOk (c : String × String × String × String) : Bool :=
   let (_, _, callee, guard) := c
   callee == "Map.CopyInto" && guard == "locked"
+
+/-- fields a pooled walker may keep from its previous use, and why that cannot reach a result -/
+def poolKeepTable : List ((String × String) × String) := [
+  (("compareWalker", "path"), "scratch: re-sliced to the current depth by prepareDescent before every use; the root walker starts from path[:0]"),
+  (("mergingWalker", "path"), "scratch, as for compareWalker"),
+  (("compareWalker", "spareWalkers"), "free list of child walkers; every field of a child is overwritten by prepareDescent"),
+  (("mergingWalker", "spareWalkers"), "as above"),
+  (("toFieldSetWalker", "spareWalkers"), "as above"),
+  (("validatingObjectWalker", "spareWalkers"), "as above"),
+  (("reconcileWithSchemaWalker", "spareWalkers"), "as above"),
+  (("reconcileWithSchemaWalker", "isAtomic"), "never written on the pooled (root) walker: only on the children prepareDescent hands out")
+]
+
+def poolKeepAllowed (f : String × String × String) : Bool :=
+  poolKeepTable.any (fun e => e.1.1 == f.2.1 && e.1.2 == f.2.2)
 
 end SMD.Facts
